@@ -229,6 +229,7 @@ pub fn t3(prop: &str, seed: u64) -> RunDesc {
     for u in 0..nup {
         let mut v = vec![o(K::Pin, 0, 0, 0, 0), o(K::LoadW, WROOT0, 0, 0, 0), o(K::WsCounted, 0, 0, 0, 0), o(K::Unpin, 0, 0, 0, 0), o(K::Signal, 1 + u as u32, 0, 0, 0)];
         let k = 2 + rng.below(4) as usize;
+        let mut held_once = false;
         for i in 0..k {
             if rng.chance(0.5) {
                 v.push(o(K::Upgrade, 0, 1, 0, 0));
@@ -241,6 +242,12 @@ pub fn t3(prop: &str, seed: u64) -> RunDesc {
                 if rng.chance(0.3) {
                     v.push(o(K::Counted, 1, 2, 0, 0));
                     v.push(o(K::DropRc, 2, 0, 0, 0));
+                }
+                if !held_once && rng.chance(0.5) {
+                    // keep the upgraded Snapshot across the other threads' collection rounds
+                    held_once = true;
+                    v.push(o(K::Await, 5, 0, 0, 0));
+                    v.push(o(K::DerefSnap, 1, 0, 0, 0));
                 }
                 v.push(o(K::Unpin, 1, 0, 0, 0));
             }
